@@ -87,7 +87,8 @@ Print Assumptions C08_nonvacuous_transposition.
                  Position.At produces and at most 64 high, ANY ply number, no condition on the piece counts;
      pr_tps      ptn.ParseTPS of any accepted text none of whose stacks is above 64;
      pr_image    the position symmetry.Symmetries rebuilds from a produced one (At of every square permuted by a coordinate map, FromSquares);
-     pr_move     Position.Move (not Pass) from a produced position, when the result has no stack above 64 (the representation limit).
+     pr_move     Position.Move (not Pass) from a produced position, when the result has no stack above 64 (the representation limit);
+     pr_pass     Position.Move of a Pass (the null move of the search; Alloc.amv is the executed model of MovePreallocated incl. Pass).
    same_at p q   Position.At returns the same square at every index of the board ("the same stacks on every square"). *)
 Theorem C08_produced_ok : forall p, produced p -> pos_ok p.
 Proof. exact produced_ok. Qed.
@@ -133,6 +134,21 @@ Theorem C08_nonvacuous_however_produced : exists q r,
   equal p14 (Symmetry.image gen_basis p14 (SymCode1.csym 5 6)) = false.
 Proof. exact ex_however_produced. Qed.
 Print Assumptions C08_nonvacuous_however_produced.
+
+(* PASS: the null move changes nothing but the ply counter ... *)
+Theorem C08_pass_only_ply : forall p m p', mT m = 1%N -> Alloc.amv hsq p m = Ok p' ->
+  size p' = size p /\ Slide2.bview p' = Slide2.bview p /\ move p' = (move p + 1)%Z /\
+  whiteStones p' = whiteStones p /\ whiteCaps p' = whiteCaps p /\ blackStones p' = blackStones p /\ blackCaps p' = blackCaps p.
+Proof. exact amv_pass. Qed.
+Print Assumptions C08_pass_only_ply.
+
+(* ... so the position after a pass is Equal to, and has the Hash() of, the same board with that side to move produced in any other
+   way (q: e.g. FromSquares with the next ply number), and is NOT Equal to the position it came from *)
+Theorem C08_pass_equal_hash : forall p m p' q, produced p -> mT m = 1%N -> Alloc.amv hsq p m = Ok p' -> produced q ->
+  size p = size q -> same_at p q -> same_side p' q ->
+  equal p' q = true /\ hash_of p' = hash_of q /\ equal p' p = false.
+Proof. exact pass_equal_hash. Qed.
+Print Assumptions C08_pass_equal_hash.
 
 (* NOT PROVED (and not provable): "no two of the millions of explored positions share a hash" is a statistical
    statement about a 64-bit mixer; the harness runs a census on the implementation (exploration, not proof). *)
